@@ -3,6 +3,7 @@ package engine
 import (
 	"fmt"
 	"strconv"
+	"strings"
 )
 
 // ---------------------------------------------------------------------------------
@@ -13,11 +14,11 @@ func init() {
 		Name:     "C06",
 		Property: "C06",
 		Gen:      genC06,
-		Oracles:  []func(o *Outcome) []Violation{respOracle("C06", "wrong-key", "unattributable-response"), livenessOracle("C06")},
+		Oracles:  []func(o *Outcome) []Violation{respOracle("C06", "wrong-key", "wrong-body", "unattributable-response"), livenessOracle("C06")},
 		NonTrivial: func(o *Outcome) bool {
 			return o.Hist.Probes["evictions"] > 0 && o.Hist.Probes["hits-checked"] > 0
 		},
-		Rule:         "seeded key sets built to be confusable (same path on two hosts, queries differing in one byte, prefix/suffix pairs, GET vs HEAD of one URL), forced into one or two shards in most runs, per-shard LRU limit 1-3 so entries are continually evicted and re-created, 20-45 requests of mixed concurrency with expiry; oracle: the self-identifying origin reply inside every response names exactly the requesting client's (method, Host, request-URI). in a quarter of the plans a tenth of the clients disconnect at a scheduler-chosen step (fault client-disconnect). non-trivial = at least one eviction and one cache hit occurred; distinct = distinct history hash",
+		Rule:         "seeded key sets built to be confusable (same path on two hosts, queries differing in one byte, prefix/suffix pairs, GET vs HEAD of one URL), forced into one or two shards in most runs, per-shard LRU limit 1-3 so entries are continually evicted and re-created, 20-45 requests of mixed concurrency with expiry; oracle: the self-identifying origin reply inside every response names exactly the requesting client's (method, Host, request-URI). very long URLs (~800 bytes) that differ only at their far end join the key sets, the cache is persisted in a third of the plans, the origin answers in any documented encoding. non-trivial = at least one eviction and one cache hit occurred; distinct = distinct history hash",
 		ExpectProbes: []string{"evictions", "hits-checked", "head-and-get-same-url", "same-path-two-hosts"},
 	})
 	register(&Profile{
@@ -28,7 +29,7 @@ func init() {
 		NonTrivial: func(o *Outcome) bool {
 			return o.Hist.Probes["hits-checked"] > 0
 		},
-		Rule:         "seeded plans: origin encodings {identity,gzip,br,lz4,zst,snz} x client Accept-Encoding lists x body classes (empty, 1B, threshold-1/threshold/threshold+1, 5KB, 64KB, incompressible, >10x compressible) x content types x statuses x per-run knobs (compress levels incl. out of range, min-length, filter, upstream Accept-Encoding override), delivered on every path the scheduler can create: fetching request, waiter, later hit with another Accept-Encoding, hit after eviction + reload from the simulated store, hit-for-pass, passed methods; oracle: decode-and-compare against the origin's bytes, Content-Encoding accepted, Content-Length, status, end-to-end headers. non-trivial = at least one cache hit was checked; distinct = distinct history hash",
+		Rule:         "seeded plans: origin encodings {identity,gzip,br,lz4,zst,snz} x client Accept-Encoding lists x body classes (empty, 1B, threshold-1/threshold/threshold+1, 5KB, 64KB, incompressible, >10x compressible) x content types x statuses x per-run knobs (compress levels incl. out of range, min-length, filter, upstream Accept-Encoding override), delivered on every path the scheduler can create: fetching request, waiter, later hit with another Accept-Encoding, hit after eviction + reload from the simulated store, hit-for-pass, passed methods; oracle: decode-and-compare against the origin's bytes, Content-Encoding accepted, Content-Length, status, end-to-end headers. in a fifth of the plans a tenth of the clients disconnect at a scheduler-chosen step (fault client-disconnect). non-trivial = at least one cache hit was checked; distinct = distinct history hash",
 		ExpectProbes: []string{"hits-checked", "path:waiter", "path:hit-after-reload", "path:hitForPass", "path:passed", "enc:lz4", "enc:zst", "enc:snz", "enc:gzip", "enc:br", "transcoded-for-client", "body:empty", "body:>10x"},
 	})
 }
@@ -37,13 +38,22 @@ func genC06(g *Gen) *Plan {
 	size := pick(g, 8, 8, 16, 24)
 	p := &Plan{Profile: "C06", Seed: g.Seed, Policy: g.policy(), ClockMenuMs: []int{300, 1000, 2000}, ClockWeight: pick(g, 0.0, 0.05, 0.1), MaxSteps: 3000}
 	p.ShardMode = pick(g, "one", "one", "two", "")
-	p.Configs = []Config{baseConfig(size, "1s", "")}
+	store := ""
+	if g.p(0.35) {
+		// persisted: an evicted key comes back from the record stored under its key
+		store = storeURL
+		p.InlineStore = true
+	}
+	p.Configs = []Config{baseConfig(size, "1s", store)}
 	type k struct{ m, h, u string }
+	long := "/long/" + strings.Repeat("segment-0123456789/", 40) // ~770 bytes
 	pool := []k{
 		{"GET", hostA, "/a"}, {"GET", hostB, "/a"}, {"HEAD", hostA, "/a"}, {"GET", hostA, "/a/"}, {"GET", hostA, "/ab"},
 		{"GET", hostA, "/a?x=1"}, {"GET", hostA, "/a?x=2"}, {"GET", hostA, "/a?x=1&y=2"}, {"GET", hostA, "/a?"}, {"GET", hostA, "/A"},
 		{"GET", hostA + ".", "/a"}, {"GET", hostA, "/a%20b"}, {"GET", hostA, "/a%2Fb"}, {"GET", hostA, "/a/b"}, {"HEAD", hostB, "/a"},
 		{"GET", hostA, "//a"}, {"GET", hostA + ":80", "/a"},
+		// very long URLs that differ only at their far end (or only in the query after it)
+		{"GET", hostA, long + "?page=1"}, {"GET", hostA, long + "?page=2"}, {"GET", hostA, long + "x"}, {"HEAD", hostA, long + "?page=1"},
 	}
 	g.R.Shuffle(len(pool), func(i, j int) { pool[i], pool[j] = pool[j], pool[i] })
 	keys := pool[:g.n(3, 9)]
@@ -51,7 +61,11 @@ func genC06(g *Gen) *Plan {
 	for _, kk := range keys {
 		var s []Reply
 		for i := 0; i < 6; i++ {
-			s = append(s, cacheable(g.n(1, 5), g.n(0, 120)))
+			r := cacheable(g.n(1, 5), g.n(0, 120))
+			// the origin may answer in any documented encoding: what pike decodes for one key must
+			// not end up under another
+			r.Enc = pick(g, "", "", "", "snz", "lz4", "zst", "gzip")
+			s = append(s, r)
 		}
 		p.Scripts[kk.m+" "+kk.h+" "+kk.u] = s
 	}
